@@ -86,7 +86,24 @@ def rule_alias_sole(ctx):
                                 sole = True
                             else:
                                 why.append('slice pattern with `..` (first element only)')
-            elif pc[0] == 'match' and 'FragmentSpread' in repr(pc[2]):
+            if pc[0] in ('match', 'if') and pc[1] is not None:
+                # the decision may have been taken earlier and named (`let sole_spread = match set { [only] => match .. }`):
+                # look at the patterns inside the value that is tested here
+                try:
+                    tt_ = ctx.pv.eval(fn, pc[1], senv, 0)
+                except Exception:
+                    tt_ = None
+                if tt_ is not None:
+                    for s_ in P.subterms(tt_):
+                        if isinstance(s_, tuple) and s_ and s_[0] == 'match':
+                            for pat_, _v in s_[2]:
+                                rp_ = repr(pat_)
+                                if 'FragmentSpread' in rp_:
+                                    spread = True
+                                for q_ in [pat_] + [x for x in P.subterms(pat_) if isinstance(x, tuple)]:
+                                    if isinstance(q_, tuple) and q_ and q_[0] == 'slice' and not q_[2] and len(q_[1]) == 1:
+                                        sole = True
+            if pc[0] == 'match' and 'FragmentSpread' in repr(pc[2]):
                 spread = True
                 # `if let [(.., FragmentSpread(..))] = xs.as_slice()`: a one-element slice pattern without `..`
                 for s in [pc[2]] + [x for x in P.subterms(pc[2]) if isinstance(x, tuple)]:
@@ -112,18 +129,33 @@ def rule_typename_same_type(ctx):
     # `Selection::Typename` (found by what it does; the name is not relied upon)
     cg = callgraph(ctx)
     fns = [f for f in ctx.crate('codegen').all_fns() if norm_path(f.path).startswith('graphql_client_codegen::query::validation') and not f.from_macro]
-    rec = [f for f in fns if f.key in cg.edges.get(f.key, ()) and
+    # .. recursive directly or through a helper (the spread case split off into its own function)
+    def in_cycle(f_):
+        return f_.key in cg.reachable([k_ for k_ in cg.edges.get(f_.key, ())])
+    rec = [f for f in fns if in_cycle(f) and
            any(any('Selection::Typename' in repr(P.pat_summary(a['pat'])) for a in m_['arms']) for m_ in f.walk(lambda x: x['k'] == 'match'))]
     if not rec:
         return [bad('TYPENAME-SAME-TYPE', 'floor', 'anchor-missing: recursive __typename search not found')]
-    f = rec[0]
-    senv = H.sym_env(f)
-    for i, call in enumerate(cg.sites.get((f.key, f.key), [])):
-        inst = '%s#%d' % (short(f.path), i + 1)
+    root = rec[0]
+    members = [f_ for f_ in fns if f_.key == root.key or (f_.key in cg.reachable([root.key]) and root.key in cg.reachable([f_.key]))]
+    # the calls that re-enter the search for the selection set of a *spread fragment*: calls of the root function from
+    # inside the cycle
+    sites = []
+    for f_ in members:
+        for call in cg.sites.get((f_.key, root.key), []):
+            sites.append((f_, call))
+    for i, (f, call) in enumerate(sites):
+        senv = H.sym_env(f)
+        inst = '%s#%d' % (short(root.path), i + 1)
         good = False
         for pc in P.path_conds(f, call):
-            if pc[0] == 'if' and pc[2]:
+            if pc[0] == 'if' and isinstance(pc[2], bool):
                 t = ctx.pv.eval(f, pc[1], senv, 0)
+                _x, c_, pol_ = P.canon_if(t, pc[2])
+                if c_[0] == 'op' and c_[1] == '==' and pol_ and 'ResolvedFragment.on' in TM.fields_in(c_) and any(x[0] == 'param' for x in c_[2]):
+                    good = True
+                if not pc[2]:
+                    continue
                 for s in P.subterms(t):
                     if s[0] == 'op' and s[1] == '==' and 'ResolvedFragment.on' in TM.fields_in(s) and any(x[0] == 'param' for x in s[2]):
                         good = True
